@@ -80,6 +80,9 @@ PINS = [
     (COO, "COO._reduce_return", "return out.reshape(tuple((self.shape[d] for d in neg_axis)))"),
     (COO, "_grouped_reduce", "inv_idx, counts = _calc_counts_invidx(groups)"),
     (COO, "_grouped_reduce", "result = method.reduceat(x, inv_idx, **kwargs)"),
+    (GCXS, "GCXS._reduce_calc", 'raise ValueError("duplicate value in \'axis\'")'),
+    (GCXS, "GCXS._reduce_calc", "out = self.tocoo().reduce(method, axis=axis, keepdims=keepdims, **kwargs)"),
+    (GCXS, "GCXS._reduce_calc", "return (out.asformat('gcxs', compressed_axes=self.compressed_axes),)"),
     (GCXS, "GCXS._reduce_calc", "x = self.flatten().tocoo()"),
     (GCXS, "GCXS._reduce_calc", "out = x.reduce(method, axis=None, keepdims=keepdims, **kwargs)"),
     (GCXS, "GCXS._reduce_calc", "return (out.reshape(np.ones(self.ndim, dtype=np.intp)),)"),
@@ -102,6 +105,8 @@ PIN_TESTS = [
     (SA, "SparseArray.reduce", "len(out) == 1"),
     (COO, "COO._reduce_calc", "axis == (None,)"),
     (GCXS, "GCXS._reduce_calc", "axis[0] is None or np.array_equal(np.sort(axis), np.arange(self.ndim, dtype=np.intp))"),
+    (GCXS, "GCXS._reduce_calc", "len(set(axis)) != len(axis)"),
+    (GCXS, "GCXS._reduce_calc", "len(axis) == 0"),
     (COO, "_calc_counts_invidx", "len(groups) == 0"),
     (COO, "_calc_counts_invidx", "groups[i] != last_group"),
 ]
@@ -429,6 +434,20 @@ def generate(repo):
     _dtype_fragment(out, rep, sa, "SparseArray.var", "s_var_dtype", lambda t: t.startswith("dtype is None and "),
                     ["self_dtype", "dtype"], ["dtype"],
                     "SparseArray.var, `if dtype is None and <integer or bool>: dtype = f8` over dtype codes")
+
+    # 5b. sparse.nanmean: the array result is cast back to the dtype of the sum
+    cm = _parse(repo, "sparse/numba_backend/_coo/common.py")
+    nm = _fn(cm, "nanmean")
+    rets = [ast.unparse(n) for n in ast.walk(nm) if isinstance(n, ast.Return)]
+    if "return out.astype(num.dtype) if out.dtype != num.dtype else out" in rets:
+        flag = 1
+    elif "return np.true_divide(num, den, casting='unsafe')" in rets:
+        flag = 0
+    else:
+        raise SiteError("nanmean: the return of the array branch has an unexpected form")
+    out.append("(* nanmean, array result: 1 = cast back to the dtype of the sum, 0 = true_divide's promotion *)\n"
+               "Definition s_nanmean_keeps_sum_dtype : Z := %d.\n" % flag)
+    rep["s_nanmean_keeps_sum_dtype"] = {"status": "ok", "value": flag}
 
     # 6. pins
     def stmts_of(rel, qual):
